@@ -237,12 +237,81 @@ def _solve_one(task):
 _pool = None
 
 
+def _njobs():
+    return int(os.environ.get("PYVC_JOBS", "0")) or min(16, os.cpu_count() or 4)
+
+
 def pool():
     global _pool
     if _pool is None:
-        n = int(os.environ.get("PYVC_JOBS", "0")) or min(16, os.cpu_count() or 4)
-        _pool = multiprocessing.get_context("fork").Pool(n)
+        import concurrent.futures
+        _pool = concurrent.futures.ProcessPoolExecutor(_njobs(), mp_context=multiprocessing.get_context("fork"))
     return _pool
+
+
+def _isolated(task, conn):
+    try:
+        conn.send(_solve_one(task))
+    finally:
+        conn.close()
+
+
+def run_tasks(tasks):
+    """All tasks through the worker pool.  A back end that takes its worker process down (z3 has crashed inside
+    model construction) must neither hang the check nor turn into a verdict: when the pool breaks, every task without a
+    result is re-run in a process of its own, and the one that dies there is `unknown` with the crash recorded."""
+    global _pool
+    import concurrent.futures
+    from concurrent.futures.process import BrokenProcessPool
+    results = [None] * len(tasks)
+    try:
+        futs = [pool().submit(_solve_one, t) for t in tasks]
+        for i, f in enumerate(futs):
+            try:
+                results[i] = f.result()
+            except BrokenProcessPool:
+                pass
+    except BrokenProcessPool:
+        pass
+    todo = [i for i, r in enumerate(results) if r is None]
+    if not todo:
+        return results
+    try:
+        _pool.shutdown(wait=False, cancel_futures=True)
+    except Exception:
+        pass
+    _pool = None
+    ctx = multiprocessing.get_context("fork")
+    running = {}
+    todo = list(reversed(todo))
+    while todo or running:
+        while todo and len(running) < _njobs():
+            i = todo.pop()
+            a, b = ctx.Pipe(duplex=False)
+            p = ctx.Process(target=_isolated, args=(tasks[i], b))
+            p.start()
+            b.close()
+            running[i] = (p, a, time.time())
+        for i, (p, a, t0) in list(running.items()):
+            limit = tasks[i][1] / 1000.0 * (len(tasks[i][3]) + 1) + 60
+            if a.poll(0.02):
+                try:
+                    results[i] = a.recv()
+                except EOFError:
+                    results[i] = None
+                p.join(5)
+            elif not p.is_alive() or time.time() - t0 > limit:
+                if p.is_alive():
+                    p.kill()
+                p.join(5)
+            else:
+                continue
+            if results[i] is None:
+                results[i] = {"status": "unknown", "backend": None, "seconds": time.time() - t0, "model": None,
+                              "tried": ["worker process died (exit code %s): back-end crash, not a verdict" % p.exitcode]}
+            a.close()
+            del running[i]
+    return results
 
 
 def discharge(vcs, timeout_ms=10000, backends=("z3-api", "cvc5", "z3-api/arith2", "z3-api/nombqi"), want_model=True, depths=(1, 2, 3)):
@@ -261,7 +330,7 @@ def discharge(vcs, timeout_ms=10000, backends=("z3-api", "cvc5", "z3-api/arith2"
             d = depth if d is None else d
             v.smt2 = build_query(v, d)
             tasks.append((v.smt2, tmo, want_model, list(backends)))
-        results = pool().map(_solve_one, tasks, chunksize=1) if len(tasks) > 1 else [_solve_one(tasks[0])]
+        results = run_tasks(tasks)
         for v, r in zip(todo, results):
             v.status, v.backend, v.model = r["status"], r["backend"], r["model"]
             v.seconds = getattr(v, "seconds", 0.0) + r["seconds"]
